@@ -60,6 +60,21 @@ FIELDS = {
 }
 
 
+# where the raw two-digit (or longer) year / month / day fields sit in the canonical number
+SLICES = {
+    'be.nn': ((0, 2), (2, 4), (4, 6)), 'be.bis': ((0, 2), (2, 4), (4, 6)), 'be.ssn': ((0, 2), (2, 4), (4, 6)),
+    'bg.egn': ((0, 2), (2, 4), (4, 6)), 'cn.ric': ((6, 10), (10, 12), (12, 14)), 'cu.ni': ((0, 2), (2, 4), (4, 6)),
+    'cz.rc': ((0, 2), (2, 4), (4, 6)), 'sk.rc': ((0, 2), (2, 4), (4, 6)), 'dk.cpr': ((4, 6), (2, 4), (0, 2)),
+    'ee.ik': ((1, 3), (3, 5), (5, 7)), 'lt.asmens': ((1, 3), (3, 5), (5, 7)), 'gr.amka': ((4, 6), (2, 4), (0, 2)),
+    'id.nik': ((10, 12), (8, 10), (6, 8)), 'kr.rrn': ((0, 2), (2, 4), (4, 6)), 'mx.curp': ((4, 6), (6, 8), (8, 10)),
+    'my.nric': ((0, 2), (2, 4), (4, 6)), 'no.fodselsnummer': ((4, 6), (2, 4), (0, 2)), 'pl.pesel': ((0, 2), (2, 4), (4, 6)),
+    'ro.cnp': ((1, 3), (3, 5), (5, 7)), 'si.emso': ((5, 7), (2, 4), (0, 2)), 'za.idnr': ((0, 2), (2, 4), (4, 6)),
+    'se.personnummer': ((0, 2), (2, 4), (4, 6)),
+}
+TARGET_DATES = [(85, 2, 29), (0, 2, 29), (96, 2, 29), (4, 2, 29), (99, 12, 31), (0, 1, 1), (85, 0, 0), (85, 2, 30), (85, 4, 31),
+                (85, 13, 1), (85, 0, 15), (85, 6, 0), (0, 2, 28), (37, 12, 31), (58, 1, 1), (54, 1, 1), (53, 12, 31)]
+
+
 def shards(tier):
     names = []
     for name, mod in sorted(C.number_modules().items()):
@@ -132,6 +147,31 @@ def date_sources(name, mod, rng, k):
     if f is None:
         return out
     base = [c[1] for c in (C.outcome(mod.validate, v) for v in C.corpus(name, limit=6, rng=rng)) if c[0] == 'ok' and isinstance(c[1], str)]
+    sl = SLICES.get(name)
+    if sl is not None:
+        for b in base[:3 if k < 10 else 8]:
+            (y0, y1), (m0, m1), (d0, d1) = sl
+            if len(b) < max(y1, m1, d1) or not (b[y0:y1] + b[m0:m1] + b[d0:d1]).isdigit():
+                continue
+            try:
+                _y, mred, dred = f(b)
+            except Exception:  # noqa: B902
+                continue
+            moff = int(b[m0:m1]) - mred      # keep the documented offset family of this number (+20/+40/+50 ...)
+            doff = int(b[d0:d1]) - dred
+            for (Y, M, D) in TARGET_DATES:
+                s = list(b)
+                s[y0:y1] = list(('%0' + str(y1 - y0) + 'd') % (Y if y1 - y0 == 2 else 1900 + Y))
+                s[m0:m1] = list('%02d' % ((M + moff) % 100))
+                s[d0:d1] = list('%02d' % ((D + doff) % 100))
+                cand = ''.join(s)
+                if C.outcome(mod.is_valid, cand) != ('ok', True):
+                    cand = C._repair(mod, cand)
+                    if cand is None or cand[min(y0, m0, d0):max(y1, m1, d1)] != ''.join(s)[min(y0, m0, d0):max(y1, m1, d1)]:
+                        continue
+                o = C.outcome(mod.validate, cand)
+                if o[0] == 'ok' and isinstance(o[1], str) and o[1] not in out:
+                    out.append(o[1])
     for b in base[:4]:
         dpos = [i for i, ch in enumerate(b) if ch.isdigit()]
         for _ in range(k):
@@ -229,6 +269,21 @@ def work(shard, tier):
         counters['date_forced_numbers'] += len(dat)
         for v in extra + reg + dat:
             pairs.append((v, v))
+        # other accepted presentations of the same numbers (separators incl. '+', case, century digits in front)
+        from vm import gen
+        seen_v = []
+        for v in [p[0] for p in pairs[:40]] + dat[:10]:
+            if v in seen_v:
+                continue
+            seen_v.append(v)
+            cands = [x for _cls, x in gen.decorations(v, name, 'quick', rng, pool=list(' -+./'))] if len(seen_v) <= 3 else []
+            if v[:1].isdigit():
+                cands += [c + v for c in ('18', '19', '20')]
+                cands += [c + v.replace('-', '+') for c in ('18', '19', '20')] + [v.replace('-', '+'), v.replace('+', '-')]
+            for x in cands:
+                o = C.outcome(mod.validate, x)
+                if o[0] == 'ok' and isinstance(o[1], str) and (o[1], x) not in pairs:
+                    pairs.append((o[1], x))
         for v, x in pairs:
             counters['valid_numbers'] += 1
             if C.outcome(mod.validate, v) == ('ok', v):
